@@ -16,7 +16,7 @@ import (
 	"github.com/miekg/dns"
 )
 
-var c04Kinds = []string{"ok", "nodatasoa", "nodatanosoa", "nx", "servfail", "refused", "tc", "ttl0", "cname"}
+var c04Kinds = []string{"ok", "nodatasoa", "nodatanosoa", "nx", "nxsoahi", "servfail", "refused", "tc", "ttl0", "cname"}
 
 // c04eEvent is a query or a time step.
 type c04eEvent struct {
